@@ -364,6 +364,48 @@ int main(int argc, char** argv) {
     stats["concurrent_threads"] = NT; stats["concurrent_tables"] = (long)g_kept.size(); stats["concurrent_points_evaluated"] = calls * NT * ROUNDS;
     stats["concurrent_outcome"] = rc;   // 0 = every result equal to the one obtained alone; > 0 = number of (table, round) sets that differ; < 0 = -signal
   }
+  // ---- history phase: what an object evaluates to depends on its CURRENT content only (the models are functions of the table
+  // as it is), not on what was asked of it before.  Every kept table has been looked up and evaluated above through every
+  // entry point; it is now changed in place (convolved, or its dimensions permuted; through the C++ member or the C wrapper),
+  // and evaluated again at every entry point next to a FRESH object holding the same content (FITS memory round trip, never
+  // evaluated before).  Any difference means the first evaluations left something behind (a cached order, a memoised routine).
+  if (!g_kept.empty()) {
+    long differ = 0, compared = 0, ops_conv = 0, ops_perm = 0, failed = 0;
+    int rc = run_concurrently(1, 120,
+      [&](int) {
+        for (size_t j = 0; j < g_kept.size(); j++) {
+          Kept& k = *g_kept[j]; uint32_t nd = k.t.ndim;
+          { uint64_t nc = 1; for (uint32_t i = 0; i < nd; i++) nc *= k.t.naxes[i]; if (nc > 6000) continue; }   // convolve costs naxes^2 per slice: small tables only
+          std::vector<uint64_t> warm; all_results(k, warm);      // (again) populate whatever the implementation may cache
+          std::vector<std::vector<double>> xs = k.xs;
+          try {
+            struct splinetable ct; ct.data = &k.t;
+            if (j % 2 == 0 || nd < 2) {
+              uint32_t dim = (uint32_t)(j % nd); double ck[3] = {-0.25, 0.0, 0.375};
+              if (j % 4 == 0) k.t.convolve(dim, ck, 3); else if (splinetable_convolve(&ct, (int)dim, ck, 3) != 0) throw std::runtime_error("splinetable_convolve failed");
+              ops_conv++;
+            } else {
+              std::vector<size_t> perm(nd); for (uint32_t i = 0; i < nd; i++) perm[i] = (i + 1) % nd;
+              if (j % 4 == 1) k.t.permuteDimensions(perm); else if (splinetable_permute(&ct, perm.data()) != 0) throw std::runtime_error("splinetable_permute failed");
+              for (auto& x : xs) { std::vector<double> y(nd); for (uint32_t i = 0; i < nd; i++) y[i] = x[perm[i]]; x = y; }
+              ops_perm++;
+            }
+            auto buf = static_cast<const Table&>(k.t).write_fits_mem();
+            Kept fresh; fresh.t.read_fits_mem(buf.first, buf.second); free(buf.first);
+            k.xs.clear(); k.cs.clear();
+            for (auto& x : xs) { std::vector<int> c(nd, -1); if (fresh.t.searchcenters(x.data(), c.data())) { k.xs.push_back(x); k.cs.push_back(c); fresh.xs.push_back(x); fresh.cs.push_back(c); } }
+            std::vector<uint64_t> a, b; all_results(k, a); all_results(fresh, b);
+            compared += (long)k.xs.size();
+            if (a != b) differ++;
+          } catch (std::exception& e) { failed++; }
+        }
+      },
+      [&]() { FILE* f = fopen((std::string(argv[6]) + ".hist").c_str(), "w"); if (f) { fprintf(f, "%ld %ld %ld %ld %ld\n", differ, compared, ops_conv, ops_perm, failed); fclose(f); } return differ > 100 ? 100 : (int)differ; });
+    long v[5] = {0, 0, 0, 0, 0};
+    { FILE* f = fopen((std::string(argv[6]) + ".hist").c_str(), "r"); if (f) { if (fscanf(f, "%ld %ld %ld %ld %ld", &v[0], &v[1], &v[2], &v[3], &v[4]) != 5) v[1] = 0; fclose(f); } }
+    stats["history_outcome"] = rc;   // 0 = modified object and fresh object agree at every entry point; > 0 = tables that differ; < 0 = -signal
+    stats["history_points_compared"] = v[1]; stats["history_convolved_in_place"] = v[2]; stats["history_permuted_in_place"] = v[3]; stats["history_operation_failed"] = v[4];
+  }
   FILE* fs = fopen(argv[6], "w");
   fprintf(fs, "{\"path_mismatch\": %ld", path_mismatch);
   for (auto& kv : stats) fprintf(fs, ", \"%s\": %ld", kv.first.c_str(), kv.second);
